@@ -429,11 +429,23 @@ def illconditioned(name, fresh, argtypes, i, want, diff):
 KINDS = ["plain", "masked"]
 
 
+def make_runs(arr, run=4):
+    """overwrite a 1-D array so that it consists of runs of `run` identical elements (exercises data-dependent shortcuts:
+    caches of the previous element, early-outs on equal neighbours)"""
+    for i in range(len(arr)):
+        if i % run:
+            arr[i] = arr[i - i % run]
+    return arr
+
+
 class Proto:
     """a generated argument that can be re-materialised cheaply (deep copies made by the C++ slice code)"""
 
-    def __init__(self, t, n, r, kind, ctx):
+    def __init__(self, t, n, r, kind, ctx, runs=False):
         self.t, self.kind = t, kind
+        if runs and is_a1(t) and kind != "masked":
+            self.base = make_runs(make_a1(t, n, r, ctx))
+            return
         if is_a1(t) and kind == "masked":
             extra = 7
             self.base = make_a1(t, n + extra, r, ctx)
@@ -458,8 +470,8 @@ class Proto:
 _proto_cache = {}
 
 
-def build_args(seed_key, argtypes, n, kinds, ctx, longer=None):
-    ck = (seed_key, tuple(argtypes), n, tuple(kinds), ctx, longer)
+def build_args(seed_key, argtypes, n, kinds, ctx, longer=None, runs=False):
+    ck = (seed_key, tuple(argtypes), n, tuple(kinds), ctx, longer, runs)
     protos = _proto_cache.get(ck)
     if protos is None:
         if len(_proto_cache) > 64:
@@ -471,7 +483,7 @@ def build_args(seed_key, argtypes, n, kinds, ctx, longer=None):
             if t == "object":
                 protos.append(None)
             else:
-                protos.append(Proto(t, nn, r, kinds[j] if is_a1(t) else "plain", ctx))
+                protos.append(Proto(t, nn, r, kinds[j] if is_a1(t) else "plain", ctx, runs))
         _proto_cache[ck] = protos
     return [p.fresh() if p is not None else None for p in protos]
 
@@ -682,6 +694,37 @@ def run_entry(owner_name, owner, name, f, argtypes, ret):
                 if st_dispatch_count() == 0 and s >= 1:
                     break        # this entry point never dispatches: one extra run is enough
             R.nontrivial(hash((sigtxt, kk, n)))
+            # ---- O1 again on data made of runs of identical elements (all-plain arguments, largest length only)
+            if "m" not in kk and n == LENGTHS[-1] and name != "__init__" and a1pos:
+                try:
+                    vr = build_args(key, argtypes, n, kinds, ctx, runs=True)
+                    vpool.install(0, 1, 0)
+                    rr = call(f, owner_name, name, vr)
+                    base_r = ("ok", snap(rr), [snap(v) for v in vr])
+                except Exception as e:
+                    base_r = None
+                if base_r is not None:
+                    R.cls("runs_content_calls")
+                    for mode, s2 in [(1, 0), (1, 1), (1, 2), (2, 0), (3, 0)]:
+                        if (mode == 1 and "seq" not in MODE) or (mode == 2 and "thr" not in MODE.split(",")) or (mode == 3 and "thrd" not in MODE):
+                            continue
+                        v2 = build_args(key, argtypes, n, kinds, ctx, runs=True)
+                        vpool.install(mode, WORKERS, (a.seed * 7777 + hash_str(key) + s2 * 104729 + n) & 0x7fffffffffff)
+                        try:
+                            r2 = call(f, owner_name, name, v2)
+                            got = ("ok", snap(r2), [snap(v) for v in v2])
+                        except Exception as e:
+                            got = ("raise", type(e).__name__, [snap(v) for v in v2])
+                        finally:
+                            vpool.install(0, 1, 0)
+                        R.ev()
+                        if got != base_r:
+                            st = vpool.stats()
+                            R.fail("partition_dependence:%s.%s:%s:runs_of_equal_elements" % (owner_name, name, {1: "seq", 2: "thr", 3: "thr_delay"}[mode]), sig=sigtxt, n=n,
+                                   pool_seed=s2, partition=st["last"][:12], base=repr(base_r[1])[:200], got=repr(got[1])[:200])
+                            break
+                        if st_dispatch_count() == 0:
+                            break
     return
 
 
